@@ -161,6 +161,13 @@ let case_chan k line lines =
     let queries_in_order () = List.sort (fun a b -> compare a.token b.token) (Hashtbl.fold (fun _ qu acc -> qu :: acc) queries []) in
     let do_proc head block =
       collect_obs block;
+      (* C06 "each attempt waits no less than the base timeout", judged on the log alone: a query that
+         is outstanding with its deadline still ahead may be re-sent or completed in this call only
+         for a reason the log shows - a message for it arrived on its connection, the socket layer
+         reported an error on its connection (failed read, message that does not parse) - never
+         because some OTHER query timed out *)
+      let snapshot = List.map (fun qu -> (qu, in_flight qu, qu.sock, qu.deadline, qu.obs <> [])) (Hashtbl.fold (fun _ qu acc -> qu :: acc) queries []) in
+      let excused_q = Hashtbl.create 8 and excused_s = Hashtbl.create 4 in
       let hw = words head in
       let rl = match List.find_opt (starts_with "r=") hw with Some r -> List.map sock_of (list_of_brackets (String.sub r 2 (String.length r - 2))) | None -> [] in
       (* read phase, socket by socket *)
@@ -183,6 +190,7 @@ let case_chan k line lines =
             | (id, Some kind, cform) :: rest ->
               (match Hashtbl.find_opt by_qid id with
                | Some qu ->
+                 if qu.sock = s then Hashtbl.replace excused_q qu.token ();
                  let same = in_flight qu && qu.sock = s in
                  if alive qu && not same then Hashtbl.replace feats "stale" ();
                  (* ares_cookie_validate, for a reply that reached it (outstanding on this connection).
@@ -210,6 +218,7 @@ let case_chan k line lines =
               (* process_answer fails: the connection is closed, every query still outstanding on it
                  is re-queued; the messages behind it are lost *)
               stopped := true;
+              Hashtbl.replace excused_s s ();
               Hashtbl.replace feats "malformed" ();
               if rest <> [] then Hashtbl.replace feats "malformed-not-last" ();
               if !touched <> [] then Hashtbl.replace feats "malformed-after-requeue" ();
@@ -219,6 +228,7 @@ let case_chan k line lines =
           (* the read itself failed: what was read before the failure has been processed above,
              now the connection is closed and every query still outstanding on it is re-queued *)
           if err then begin
+            Hashtbl.replace excused_s s ();
             Hashtbl.replace feats "readerr" ();
             if consumed <> [] then Hashtbl.replace feats "readerr-after-data" ();
             if not !stopped then
@@ -232,6 +242,11 @@ let case_chan k line lines =
       let due = List.stable_sort (fun a b -> compare a.deadline b.deadline) due in
       if due <> [] then Hashtbl.replace feats "timeouts" ();
       List.iter (fun qu -> if in_flight qu && qu.deadline <= !now then feed qu (ITimeout (zi !s_now))) due;
+      List.iter (fun (qu, was_in_flight, sock0, deadline0, has_out) ->
+        if was_in_flight && has_out && deadline0 > !now
+           && not (Hashtbl.mem excused_q qu.token) && not (Hashtbl.mem excused_s sock0) then
+          fail k "attempt-cut-short" "query t%d: attempt ended %d us before its deadline (base timeout %d ms) without a reply or a socket error on its connection s%d"
+            qu.token (deadline0 - !now) maxt sock0) snapshot;
       mark_closed block;
       end_block "proc" in
     (* ---- walk the log ---- *)
